@@ -25,6 +25,11 @@ SOLO_Q = dict(Threads={1}, SharedS={1}, LocalS=set(), MaxItems=3, MaxCmds=3, Max
               NegRel=True, ClockMode="jump", MaxClock=0, Record=True, Req=False)
 # deeper but narrower: four commands (e.g. an action cancelling a sibling that is already due), fewer kinds
 DEEP_Q = dict(SOLO_Q, MaxCmds=4, MaxItems=3, RelD={1}, AbsT=set(), NegRel=False, SleepD=set())
+# same-instant family: several TIMED items falling due at exactly the same instant (relative and absolute forms of
+# one instant, so the due times are EQUAL, not merely close), scheduled from one action body of up to three commands
+# together with the cancellation of any one of them (first / middle / last among the equals) before the drain reaches them
+TIE_Q = dict(SOLO_Q, MaxCmds=4, MaxItems=3, MaxBody=3, RelD={1}, AbsT={1}, NegRel=False, SleepD=set())
+TIE_T = dict(SOLO_Q, MaxCmds=5, MaxItems=4, MaxBody=4, RelD={1}, AbsT={1}, NegRel=False, SleepD=set())
 DEEP_T = dict(SOLO_Q, MaxCmds=5, MaxItems=4, RelD={1}, AbsT=set(), NegRel=False, SleepD=set())
 SOLO_T = dict(SOLO_Q, MaxItems=4, MaxCmds=4, NegRel=True, Req=True)
 SOLO_SIM = dict(SOLO_Q, Req=True, MaxItems=6, MaxCmds=7, MaxBody=3, RelD={1, 2, 3}, AbsT={0, 1, 3})
@@ -106,11 +111,12 @@ def run(tier: str) -> int:
                                    else "-XX:ParallelGCThreads=2 -XX:CICompilerCount=2")
     pool = mp.get_context("fork").Pool(8)      # forked before any helper thread exists
     try:
-        with ThreadPoolExecutor(6) as tp:
+        with ThreadPoolExecutor(7) as tp:
             f_solo = tp.submit(_export, SOLO_Q if quick else SOLO_T, "export one thread, one scheduler", None, 0, SOLO_NEED)
             f_mixed = tp.submit(_export, MIXED_Q if quick else MIXED_T, "export one thread, mixed schedulers", None, 0,
                                 ("GenReq", "LinReq", "Commit", "Release", "Jump"))
             f_deep = tp.submit(_export, DEEP_Q if quick else DEEP_T, "export one thread, one scheduler, deeper / fewer kinds")
+            f_tie = tp.submit(_export, TIE_Q if quick else TIE_T, "export one thread, one scheduler, equal due times / longer bodies")
             f_design = tp.submit(_design, DESIGN_Q if quick else DESIGN_T, "design: all interleavings, 2 threads, free clock", 3 if quick else 4)
             f_gen = tp.submit(_export, CONC_GEN, "generate 2-thread programs", f"num={20 if quick else 400}", ck.seed + 11)
             impl_c = dict(Threads={1, 2}, NTop=1, Nest=True, Delays={0} if quick else {0, 1}, MaxClock=1)
@@ -136,6 +142,11 @@ def run(tier: str) -> int:
             jobs = [(p, "own", bound, capof(p), nrand, ck.seed) for p in tc.directed_programs(2)]
             jobs += [(p, "own", bound, capof(p), nrand, ck.seed) for p in progs2[: (6 if quick else 80)]]
             jobs += [(p, "passed", bound, cap, nrand, ck.seed) for p in tc.directed_programs(2)[:: (4 if quick else 1)]]
+            if quick:   # the "passed" variant differs from "own" only where the thread singleton (scheduler 3) is used: the instance
+                # obtained on the set-up thread and used on the workers - run every directed program that touches it
+                d2 = tc.directed_programs(2)
+                uses3 = lambda p: any(c["s"] == 3 for t in p["top"] for c in t) or any(c["s"] == 3 for b in p["body"] for c in b)
+                jobs += [(p, "passed", bound, cap, nrand, ck.seed) for i, p in enumerate(d2) if uses3(p) and i % 4 != 0]
             jobs += [(p, "own", 2, cap, nrand, ck.seed) for p in tc.directed_programs(3)[-2:-1]]     # three threads, one shared trampoline
             if not quick:
                 res3, label3 = f_gen3.result()
@@ -146,7 +157,7 @@ def run(tier: str) -> int:
 
             # ---- Binding A: one-thread programs
             solo_lines = []
-            for f in [f_solo, f_deep, f_mixed] + f_sims:
+            for f in [f_solo, f_deep, f_tie, f_mixed] + f_sims:
                 res, label = f.result()
                 ck.add_tlc(res, label)
                 kinds = ("mixed",) if "mixed" in label or "three schedulers" in label else tc.SOLO_KINDS
